@@ -450,6 +450,20 @@ theorem http_functions_covered :
     Gen.RequestSurface.acceptClasses = ["Accept", "CharsetAccept", "LanguageAccept", "MIMEAccept"] ∧
     Gen.RequestSurface.cacheControlClasses = ["RequestCacheControl", "ResponseCacheControl"] := by decide +kernel
 
+/-! ### cookies: the octal escapes of quoted values fit a byte -/
+
+/-- `_cookie_unslash_replace` turns a three-digit octal escape into `int(v, 8).to_bytes(1, "big")`,
+which raises OverflowError above 255: the character classes of the live `_cookie_unslash_re`
+(regenerated per byte: first digit, later digits) admit `0..3` and `0..7` only, so every escape the
+regex recognises is at most `\377`; the pattern source is the one the cookie model was written for.
+Widening the first digit to `0..7` (`\400` … `\777` from a client's `Cookie:` header) breaks this. -/
+theorem cookie_octal_escape_fits_byte :
+    (∀ n, n < 256 → Wz.Http.tbl Gen.Cookie.unslashOct1 n = true → 48 ≤ n ∧ n ≤ 51) ∧
+    (∀ n, n < 256 → Wz.Http.tbl Gen.Cookie.unslashOct23 n = true → 48 ≤ n ∧ n ≤ 55) ∧
+    (Gen.Regexes.table.find? (fun r => r.1 == "werkzeug.sansio.http" && r.2.1 == "_cookie_unslash_re")).map (·.2.2.1)
+      = some "\\\\([0-3][0-7]{2}|.)" := by
+  refine ⟨by decide +kernel, by decide +kernel, by decide +kernel⟩
+
 /-! ### termination: where a hang can come from -/
 
 /-- regexes with an alternation or an unbounded repeat *inside* an unbounded repeat — the shapes
